@@ -44,7 +44,7 @@ def run(sid, tier='quick'):
     wt = worktree(sid, os.path.join(d, 'patch.diff'))
     t0 = time.time()
     try:
-        r = sh('cd %s && VERIF_REPO=%s ./check %s --tier %s' % (V, wt, prop, tier), timeout=3600)
+        r = sh('cd %s && VERIF_REPO=%s VERIF_EVIDENCE_DIR=/tmp/seed-evid-%s ./check %s --tier %s' % (V, wt, sid, prop, tier), timeout=5400)
     finally:
         drop(wt)
     viol = [l for l in r.stdout.splitlines() if l.startswith('VIOLATION')]
